@@ -80,7 +80,11 @@ func c15(run *ev.Run, tier string) {
 		}
 		if r.P(1, 10) {
 			s.VersionSchema = "none"
-			s.Version = rng.Pick(r, []string{"2024-01-15", "1.2-3", "r12-g1a2b3c"})
+			s.Version = rng.Pick(r, []string{"2024-01-15", "1.2-3", "r12-g1a2b3c", "v2024.10.02", "v4.5.6"})
+		}
+		if r.P(1, 12) {
+			s.Version = rng.Pick(r, []string{"v1.2.3.4", "v2024.10.02.1"}) // not a semver: taken verbatim
+			s.Prerelease, s.VersionMetadata = "", ""
 		}
 		if r.P(1, 6) {
 			s.Deb.Arch, s.RPM.Arch, s.APK.Arch, s.IPK.Arch, s.ArchL.Arch = "debarch", "rpmarch", "apkarch", "ipkarch", "archarch"
@@ -152,6 +156,18 @@ func c15(run *ev.Run, tier string) {
 	run.Set("file_names_compared_with_decoded_metadata", names)
 
 	if bin := nfpmBin(run); bin != "" {
+		// a rebuild to the same target: the file under the requested / conventional
+		// name is the new package and nothing else
+		cliRebuildSmaller(run, bin, "C15", func(f, how string, atTarget, fresh []byte) {
+			atomic.AddInt64(&cli, 3)
+			if atTarget == nil || fresh == nil {
+				run.Violate("C15/cli/"+f+"/rebuild-target-not-a-single-file", map[string]any{"how": how})
+				return
+			}
+			if !bytes.Equal(atTarget, fresh) {
+				run.Violate("C15/cli/"+f+"/file-at-target-is-not-the-package/after-rebuild", map[string]any{"how": how, "file_bytes": len(atTarget), "package_bytes": len(fresh)})
+			}
+		})
 		ncli := ncases(8, 80, tier)
 		for i := 0; i < ncli; i++ {
 			r := rng.New(uint64(run.Seed)).Fork(uint64(170000 + i))
@@ -264,6 +280,50 @@ func c15(run *ev.Run, tier string) {
 				run.Case(fmt.Sprintf("cli|no-infer|%s|%d", f, i), true)
 				if code != 0 || !isFormat(tgt2, other) {
 					run.Violate("C15/cli/"+f+"/extension-overrides-explicit-packager", map[string]any{"exit": code, "output": ev.Short(out, 300), "given_packager": other})
+				}
+			}
+		}
+	}
+	// (7) the tool names the file itself while version and architecture reach the
+	// configuration through the environment: name and metadata still agree
+	if bin := nfpmBin(run); bin != "" {
+		wd := filepath.Join(dir, "cli-env")
+		_ = os.MkdirAll(wd, 0o755)
+		cfgp := filepath.Join(wd, "conf.yaml")
+		doc := "name: envnamed\narch: ${VERIF_ARCH}\nversion: ${VERIF_VERSION}\nmaintainer: \"N <n@example.com>\"\ndescription: d\nmtime: 2017-07-14T02:40:00Z\nrpm:\n  buildhost: verif-host\ncontents:\n  - src: " + payload + "\n    dst: /opt/n/p.txt\n"
+		_ = os.WriteFile(cfgp, []byte(doc), 0o644)
+		for vi, ver := range []string{"v1.4.0-rc.2", "2.0.1+git.5", "v3.1.0-beta.1+exp.sha", "0.9"} {
+			for _, arch := range []string{"arm64", "mipsle"} {
+				env := append(os.Environ(), "VERIF_VERSION="+ver, "VERIF_ARCH="+arch)
+				for _, f := range formats {
+					if f == "archlinux" && strings.Contains(ver, "-") {
+						continue // the known archlinux prerelease finding is reported by part 1
+					}
+					for _, how := range []string{"directory-target", "blank-target"} {
+						d := filepath.Join(wd, fmt.Sprintf("%d-%s-%s-%s", vi, arch, f, how))
+						_ = os.MkdirAll(d, 0o755)
+						args := []string{"package", "-f", cfgp, "-p", f}
+						if how == "directory-target" {
+							args = append(args, "-t", d)
+						}
+						so, se, code, err := runCmd(nil, d, env, bin, args...)
+						atomic.AddInt64(&cli, 1)
+						run.Case(fmt.Sprintf("cli|version-from-environment|%s|%s|%s|%s", ver, arch, f, how), true)
+						es, _ := os.ReadDir(d)
+						if err != nil || code != 0 || len(es) != 1 {
+							run.Violate("C15/cli/"+f+"/"+how, map[string]any{"version_from_environment": ver, "exit": code, "output": ev.Short(string(so)+string(se), 300), "files": len(es)})
+							continue
+						}
+						raw, _ := os.ReadFile(filepath.Join(d, es[0].Name()))
+						pk := dec.Decode(f, raw, false)
+						if len(pk.Errs) > 0 {
+							run.Violate("C15/"+f+"/undecodable", map[string]any{"version_from_environment": ver, "errors": pk.Errs})
+							continue
+						}
+						if want := nameFromMetadata(f, pk); es[0].Name() != want {
+							run.Violate("C15/cli/"+f+"/file-name-vs-metadata/version-from-environment", map[string]any{"version": ver, "arch": arch, "how": how, "file_name": es[0].Name(), "from_metadata": want})
+						}
+					}
 				}
 			}
 		}
